@@ -48,7 +48,7 @@ PURE_OPS = ["prefix_grammar", "cnf", "derivative", "prefix_weight", "call", "mat
 
 
 def examples(tier):
-    return 8000 if tier == "quick" else 60000
+    return 8000 if tier == "quick" else 16000  # thorough: longer histories, cold long contexts for the CKY kinds too
 
 
 def steps(tier):
@@ -457,7 +457,7 @@ def run_machine(tier, hseed, n_examples, account, process, state):
         @precondition(lambda self: self.sim is not None and self.sim.init.get("loopy") and (tier == "thorough" or self.sim.kind not in ("CKY", "CKYLM", "BoolLM_c")) and not any(o[0] == "long" for o in self.case["ops"]))
         @rule(data=st.data())
         def long_context(self, data):
-            L = data.draw(st.integers(520, 700))
+            L = data.draw(st.integers(520, 700)) if self.sim.kind not in ("CKY", "CKYLM", "BoolLM_c") else data.draw(st.integers(520, 540))  # cubic parser
             pat = data.draw(st.lists(st.sampled_from(self.V), min_size=1, max_size=4))
             c = [pat[i % len(pat)] for i in range(L)]
             self._do(["long", c])
